@@ -13,7 +13,7 @@ import random
 
 import numpy as np
 
-from ..core import Ctx, quiet
+from ..core import Ctx, quiet, MachineryError
 
 UNIT = 0.01      # Angstrom per integer unit
 
@@ -48,6 +48,16 @@ def write_xyz(path, element, coords):
         f.write(f"{len(coords)}\nmolecule\n")
         for c in coords:
             f.write(f"{element} {c[0] * UNIT:.6f} {c[1] * UNIT:.6f} {c[2] * UNIT:.6f}\n")
+
+
+def rot_spec_formula(q):
+    """IntGeom!RotN2(q) / |q|^2 evaluated in floating point (scalar-last quaternion).  This transliteration of the
+    spec's formula is itself checked on every rational row against what TLC computed (see `formula_bound`)."""
+    x, y, z, w = [float(v) for v in q]
+    n2 = x * x + y * y + z * z + w * w
+    return np.array([[n2 - 2 * (y * y + z * z), 2 * (x * y - z * w), 2 * (x * z + y * w)],
+                     [2 * (x * y + z * w), n2 - 2 * (x * x + z * z), 2 * (y * z - x * w)],
+                     [2 * (x * z - y * w), 2 * (y * z + x * w), n2 - 2 * (x * x + y * y)]]) / n2
 
 
 def run(ctx: Ctx):
@@ -109,6 +119,9 @@ def run(ctx: Ctx):
         else:
             for k, (fr, ex) in enumerate(zip(frames, exp)):
                 want = np.array(ex["atoms"], dtype=float) / ex["den"] * UNIT
+                mine = ((rot_spec_formula(rows[k]["q"]) @ np.array(coords, dtype=float).T).T + np.array(rows[k]["p"], dtype=float)) * UNIT
+                if np.max(np.abs(mine - want)) > 1e-9:
+                    raise MachineryError("the floating-point transliteration of the spec's rotation formula disagrees with TLC")
                 if np.max(np.abs(fr[:n1] - ref1)) > 1e-4:
                     bad = f"frame {k}: molecule 1 moved"
                     break
@@ -129,6 +142,43 @@ def run(ctx: Ctx):
                         break
         if bad:
             ctx.violation(f"{key0}: {bad.split(':')[0] if bad.startswith('frame') else bad}", dict(molecule=name, detail=bad))
+    # rows with irrational quaternions: fine rotation scans (0.1 degree steps) and a real FullGrid array.  TLC's integers
+    # cannot carry such small rational angles (|q|^2 ~ 1e10), so the expectation is the spec's formula in floating
+    # point - the transliteration checked against TLC above on every rational row.
+    from molgri.space.fullgrid import FullGrid
+    with quiet():
+        real_rows = np.asarray(FullGrid("8", "7", "[0.2, 0.35]").get_full_grid_as_array())
+    scans = []
+    for _ in range(4 if thorough else 2):
+        axis = np.array([rng.gauss(0, 1) for _ in range(3)])
+        axis /= np.linalg.norm(axis)
+        a0 = rng.uniform(0, 3)
+        for j in range(12):
+            ang = a0 + j * np.radians(0.1)
+            scans.append([rng.uniform(-5, 5), rng.uniform(-5, 5), rng.uniform(-5, 5)] + list(axis * np.sin(ang / 2)) + [np.cos(ang / 2)])
+    for name, arr in (("scan", np.array(scans)), ("fullgrid_8_7", real_rows)):
+        for molname in ("generic4", "five"):
+            el, coords = MOLS[molname]
+            path = str(d / f"{molname}.xyz")
+            try:
+                with quiet():
+                    m1 = OneMoleculeReader(static_path).get_molecule()
+                    m2 = OneMoleculeReader(path).get_molecule()
+                    ref = m2.atoms.positions.astype(float).copy()
+                    u = Pseudotrajectory(m1, m2, arr).get_pt_as_universe()
+                    frames = np.array([u.atoms.positions.copy() for _ in u.trajectory])
+            except Exception as ex:
+                ctx.violation(f"Pseudotrajectory(molecule={molname}, rows={name}): exception {type(ex).__name__}", dict(rows=name))
+                continue
+            n1 = len(frames[0]) - len(ref)
+            for k, row in enumerate(arr):
+                want = (rot_spec_formula(row[3:]) @ ref.T).T + row[:3]
+                err = float(np.max(np.abs(frames[k][n1:] - want))) if len(frames) == len(arr) else 1e9
+                ctx.count(1, nontrivial_key=(name, molname, k))
+                if err > 1e-4:
+                    ctx.violation(f"Pseudotrajectory(molecule={molname}, rows={name}): frame {k} is not the placement of row {k}",
+                                  dict(rows=name, frame=k, row=[float(v) for v in row], off_by_A=err))
+                    break
     ctx.cov["traces_validated_against_impl"] += len(cases)
     ctx.sample(dict(molecule="generic4", row=meta[0][3][0], expected=expect[0][0]))
     import shutil
